@@ -4,6 +4,15 @@ import json, os, re, sys
 VERIF = os.path.dirname(os.path.dirname(os.path.abspath(__file__)))
 MARK = "\n## 10. Independent validation: seeded changes and refactorings\n"
 
+def extra_rows():
+    """Rows for corpora measured after this text was written: seeded/FIRST_MEASUREMENTS.json =
+    [{"corpus":..., "kind":..., "first":..., "lesson":...}]"""
+    p = os.path.join(VERIF, "seeded", "FIRST_MEASUREMENTS.json")
+    if not os.path.exists(p):
+        return ""
+    return "\n".join("| %s | %s | %s | %s |" % (r["corpus"], r["kind"], r["first"], r.get("lesson", "")) for r in json.load(open(p)))
+
+
 def main():
     out = [MARK]
     out.append("""Both corpora were written by sub-agents that were given **only the property records** (and their own
@@ -24,7 +33,31 @@ before any rule was adapted to it, was 17 caught / 4 fail-closed / 2 missed of t
 silent of 96 (54 false VIOLATIONs, 33 fail-closed) and triggered the robustness round described in
 `vt/ROUND3_ROBUSTNESS.md` (recognisers generalised: aliases, unpacking, helper inlining, module-level constants,
 control-flow rewrites decided on the CFG instead of syntactic position).
-""")
+
+**First measurements (before any rule was adapted to the new corpus).**  The loop "fresh independent corpus →
+measure → send the misses / false alarms to the owner of the check → re-measure everything" was repeated until
+the time ran out.  The first-measurement numbers are the honest estimate of how the checks behave on a change
+they have never seen; the tables below show the state *after* adaptation.
+
+| corpus | kind | first measurement | main lesson turned into rules |
+|---|---|---|---|
+| adv1 (47) | property-breaking | 9 caught, 5 fail-closed, 7 missed of the first 21 | see above |
+| adv2 (47) | property-breaking, told to avoid adv1 mechanisms | 39 / 47 reported | sibling sites of the same mechanism, state reset on the error path |
+| adv3 (46) | property-breaking, told to avoid adv1+2 | 24 reported, 4 fail-closed, 12 missed of the first 40 | value-flow into a sink through a renamed intermediate; ordering across an `await`; off-by-one on a bound |
+| adv4 (46) | property-breaking, told to avoid adv1–3 | remaining misses repaired in round 6 (the coordinator's summaries of round 3 leaked into the prompt, so this number is not a clean measurement) | C29-adv4 dropped: judged outside the property as stated |
+| refactors A+B (95) | behaviour-preserving | 27 / 96 silent | rules were matching syntax shapes; rewritten over facts/dominance/resolved names |
+| refactors C (48) | behaviour-preserving, heavier (helper extraction, guard inversion) | 5 / 48 silent | helper inlining (`x_inline`), alias resolution (`x_resolve`), normal forms (`x_*norm`) |
+| refactors D (48) | behaviour-preserving | 8 / 48 silent | comprehension/loop equivalence, early-return vs nested-if, temp variables |
+| refactors E (48) | behaviour-preserving | about 41 / 48 silent | walrus, conditional expressions, `try/else` motion |
+| refactors F (48) | "hygiene" edits a maintainer would make (De Morgan, renamed attributes' locals, reordered independent statements) | 29 / 48 silent (13 false VIOLATIONs, 6 fail-closed) | guards compared by truth table instead of text |
+| refactors G (48) | hygiene edits, second sample | 38 / 48 silent (6 false VIOLATIONs, 4 fail-closed) | round 8 |
+__EXTRA_ROWS__
+
+A false VIOLATION on a behaviour-preserving patch is the worst outcome for this family and every one of them was
+treated as a defect of the *rule* (made semantic or removed), never suppressed by listing the patch; a fail-closed
+`ANALYSIS-ERROR` (exit 2) on a heavy refactoring is the designed behaviour when a recogniser no longer
+understands the governed site, but each was still used to widen the recogniser.
+""".replace("__EXTRA_ROWS__", extra_rows()))
     sr = os.path.join(VERIF, "seeded", "RESULTS.json")
     if os.path.exists(sr):
         res = json.load(open(sr))
